@@ -14,15 +14,15 @@ META = {
     "modifier the grammar admits on each tag side, is printed to source, rendered by a fresh Environment under "
     "each of the four trim/lstrip settings and compared with the output R-ws predicts from the documented rules "
     "(docs/templates.rst 'Whitespace Control').",
-    "note": "Bounded: chunk alphabet of 10 (thorough 12, adds NBSP and VT) strings, <= 3 tags, one statement form per "
-    "tag kind; in multi-tag skeletons raw pairs vary only the modifiers facing their neighbours. Four reference rules "
+    "note": "Bounded: chunk alphabet of 10 (thorough 13: adds NBSP, VT and a double line break) strings, <= 3 tags, one statement form per "
+    "tag kind; in 2-tag skeletons raw pairs vary only the modifiers facing their neighbours and the outer chunks of "
+    "the quick tier come from a 5-string sub-alphabet (the middle chunk from the full one). Four reference rules "
     "are calibrated on the pinned tree where the docs are silent (see assumptions). newline_sequence and "
     "keep_trailing_newline are at their defaults here (C11 varies them).",
     "design_ref": "DESIGN.md §4 C12, §3 R-ws",
 }
 
 RAW_BODY_A = " \n a\n  "  # leading newline (never trimmed), trailing indentation (lstrip of endraw)
-RAW_BODY_B = "a"
 
 
 def phases(quick):
@@ -35,12 +35,12 @@ def phases(quick):
             ("2tags/mid-full-mid", 2, [g.CHUNKS_MID, full, g.CHUNKS_MID], g.tags("outer", (RAW_BODY_A,))),
         ]
     full = g.CHUNKS + g.CHUNKS_EXTRA
-    raw4 = [("raw", ol, "", RAW_BODY_A, "", cr) for ol in ("", "-") for cr in ("", "-")]
+    raw2 = [("raw", m, "", RAW_BODY_A, "", m) for m in ("", "-")]
     return [
         ("0tags", 0, [full], []),
         ("1tag/full", 1, [full, full], g.tags("full", full)),
-        ("2tags/full", 2, [full] * 3, g.tags("outer", (RAW_BODY_A, RAW_BODY_B))),
-        ("3tags/small", 3, [g.CHUNKS_SMALL] * 4, g.tags("none") + raw4),
+        ("2tags/full", 2, [full] * 3, g.tags("outer", (RAW_BODY_A,))),
+        ("3tags/small", 3, [g.CHUNKS_SMALL] * 4, g.tags("none") + raw2),
     ]
 
 
